@@ -18,6 +18,7 @@ class IterSrc:
         self.ety = ety
         self.key_map = key_map      # for dict .items(): the map term
         self.range_var = None
+        self.enum = None            # (index name, element name, seq term, element type) for enumerate(seq)
 
 
 def target_names(t):
@@ -72,7 +73,10 @@ def iter_source(fv, target, it, st, spec):
             out = inner.bind(i)
             bind_target(fv, st, target.elts[0], SV(i, INT), out)
             return out
-        return IterSrc(inner.length, bind)
+        src = IterSrc(inner.length, bind)
+        if inner.plain_seq is not None and isinstance(target.elts[1], ast.Name) and isinstance(target.elts[0], ast.Name):
+            src.enum = (target.elts[0].id, target.elts[1].id, inner.plain_seq, inner.ety)
+        return src
     if isinstance(it, ast.Call) and isinstance(it.func, ast.Name) and it.func.id == 'zip':
         if not isinstance(target, (ast.Tuple, ast.List)) or len(target.elts) != len(it.args):
             raise EngineError('zip target form')
@@ -298,6 +302,22 @@ def eval_comp(fv, node, st, spec, kind):
         r = z3.Const('comp!%d' % n, P.V)
         facts = [P.tag(r) == P.TAG_MAP]
         tnames = target_names(g.target)
+        if src.enum is not None and isinstance(node.key, ast.Name) and node.key.id == src.enum[1] and not g.ifs:
+            # {elem: f(i, elem) for i, elem in enumerate(seq)}
+            iname, ename, seq, ety = src.enum
+            y = z3.Const('y!c%d' % n, P.V)
+            val_i = at_index(i, lambda b: fv.ev(node.value, st, spec))
+            facts.append(z3.ForAll([y], P.has(r, y) == P.mem(seq, y), patterns=[P.has(r, y)]))
+            facts.append(z3.ForAll([y], z3.Implies(P.mem(seq, y), P.has(r, y)), patterns=[P.mem(seq, y)]))
+            facts.append(z3.Implies(P.nodup(seq), z3.And(
+                z3.ForAll([i], z3.Implies(z3.And(0 <= i, i < L), P.get(r, P.at(seq, i)) == box(val_i)),
+                          patterns=[P.at(seq, i)]),
+                P.keys(r) == seq)))
+            vty = val_i.ty
+            facts.extend(fv.deep_facts(r, T.Map(ety, vty)))
+            for f in facts:
+                fv.add_fact(st, f)
+            return SV(r, T.Map(ety, vty))
         key_is_target = isinstance(node.key, ast.Name) and node.key.id == tnames[0] and src.plain_seq is not None
         if not key_is_target:
             raise EngineError('dict comprehension whose key is not the loop variable (line %d)' % node.lineno)
